@@ -187,6 +187,43 @@ pub fn run(ctx: &Ctx) -> Report {
             }
         }
     }
+    // check chains: open boards with queens and rooks on both sides and bare kings, searched to
+    // depth 1-2; lines with five and more consecutive checks are common there, so the extension
+    // is applied again and again on one line
+    let chains = ctx.tier.pick(2400, 40_000) / ctx.shard_count() as u32;
+    run_prop(ctx, "c11-chains", chains, 200, (gen::synth_strategy(), 1u32..=2), &mut rep, |(ent, d), rep| {
+        let mut e = Entropy::new(ent);
+        let mut p = Pos::empty();
+        let wk = e.pick(64);
+        let cands: Vec<usize> = (0..64).filter(|&s| (o::file_of(s) - o::file_of(wk)).abs().max((o::rank_of(s) - o::rank_of(wk)).abs()) > 1).collect();
+        let bk = cands[e.pick(cands.len())];
+        p.sq[wk] = o::mk(true, o::K);
+        p.sq[bk] = o::mk(false, o::K);
+        for white in [true, false] {
+            for _ in 0..1 + e.pick(3) {
+                let t = [o::Q, o::Q, o::R, o::R, o::B, o::N][e.pick(6)];
+                let free: Vec<usize> = (0..64).filter(|&s| p.sq[s] == 0).collect();
+                p.sq[free[e.pick(free.len())]] = o::mk(white, t);
+            }
+        }
+        p.wtm = e.pick(2) == 0;
+        p.fmn = 30 + e.pick(40) as u32;
+        if p.is_valid_start().is_err() || p.legal_moves().is_empty() {
+            rep.class("start:rejected");
+            return Ok(());
+        }
+        if let Some(k) = p.king_sq(p.wtm) {
+            if p.attackers_count(k, !p.wtm) > 2 {
+                return Ok(());
+            }
+        }
+        rep.class("start:check-chain");
+        let out = compare(&p.to_fen(), &[], *d, budget, rep)?;
+        if let Some(s) = out.skipped {
+            rep.class(&format!("skipped:{s}"));
+        }
+        Ok(())
+    });
     let cases = ctx.tier.pick(1600, 16_000) / ctx.shard_count() as u32;
     let mix = gen::StartMix { startpos: 1, corpus: 4, synth: 6, pattern: 6 };
     run_prop(ctx, "c11", cases, 300, strategy(), &mut rep, |c, rep| {
@@ -246,7 +283,7 @@ pub fn replay(ctx: &Ctx, case: &Value) -> Report {
 }
 
 pub const LEVEL: &str = "exploration";
-pub const RULE: &str = "cases = (position, game history, depth): every corpus FEN at depth 1-2 (quick) / 1-3 (thorough) plus proptest-generated cases from corpus / synthesised / pattern starts (mate nets, stalemates, fifty-move clocks 97-120, sparse endgames), half of them reached by up to 40 plies of weighted play whose history is kept (so repetitions are remembered); depth 1-3 everywhere, 4 when the root has <= 14 moves, 5 when <= 8, 6 when <= 5. With caching neutralised (hook H1): engine root score == reference unpruned negamax of the engine's look-ahead game on the oracle board, root entry depth == asked depth, and the chosen move's reference value == the root value (ties allowed). Cases whose reference exceeds its node budget are skipped and counted. Non-trivial = the value is not the static evaluation of the root or the tree contained a mate score, repetition draw, fifty-move draw, check extension, stalemate or quiescence capture; distinct by (start, moves, depth).";
+pub const RULE: &str = "cases = (position, game history, depth): every corpus FEN at depth 1-2 (quick) / 1-3 (thorough) plus proptest-generated cases from corpus / synthesised / pattern starts (mate nets, stalemates, fifty-move clocks 97-120, sparse endgames), half of them reached by up to 40 plies of weighted play whose history is kept (so repetitions are remembered); plus 'check-chain' positions (queens and rooks on an open board with bare kings) at depth 1-2; depth 1-3 everywhere, 4 when the root has <= 14 moves, 5 when <= 8, 6 when <= 5. With caching neutralised (hook H1): engine root score == reference unpruned negamax of the engine's look-ahead game on the oracle board, root entry depth == asked depth, and the chosen move's reference value == the root value (ties allowed). Cases whose reference exceeds its node budget are skipped and counted. Non-trivial = the value is not the static evaluation of the root or the tree contained a mate score, repetition draw, fifty-move draw, check extension, stalemate or quiescence capture; distinct by (start, moves, depth).";
 pub const ASSUMPTIONS: &[&str] = &[
     "the independent rules oracle; the reference negamax in vf/refsearch.rs (no pruning, no ordering, quiescence memoised by position)",
     "hook H1 empties the cache before every probe; the root's own store happens after the last probe, so the root result is read from the public TRANSPOSITION_TABLE",
